@@ -452,7 +452,13 @@ class AdvancedHTMLParser(HTMLParser):
         if type(attrValues) != set:
             attrValues = set(attrValues)
 
-        return root.getElementsWithAttrValues(attrName, attrValues)
+        elements = root.getElementsWithAttrValues(attrName, attrValues)
+
+        if isFromRoot is True and root.getAttribute(attrName) in attrValues:
+            # Like the other document-level searches, include the root element itself
+            elements = TagCollection([root]) + elements
+
+        return elements
 
 
     def getElementsCustomFilter(self, filterFunc, root='root'):
